@@ -141,7 +141,8 @@ def canon(v):
     if isinstance(v, (bool, np.bool_)):
         return bool(v)
     if isinstance(v, (int, np.integer)):
-        return int(v)
+        v = int(v)
+        return v if v.bit_length() <= 1000000 else ('very-long-int', v.bit_length())
     if isinstance(v, (float, np.floating)):
         v = float(v)
         if v != v:
@@ -155,6 +156,11 @@ def canon(v):
         return [canon(x) for x in v]
     if isinstance(v, complex):
         return ('complex', repr(v))
+    if isinstance(v, str) and len(v) > 100000:
+        # a faulty variant can answer with an absurdly long text ("1e3" * 33554431): keep a description, not the text
+        return ('very-long-text', len(v), v[:40])
+    if isinstance(v, int) and not isinstance(v, bool) and v.bit_length() > 1000000:
+        return ('very-long-int', v.bit_length())
     return v
 
 
